@@ -439,19 +439,10 @@ class ReloadWatch(Monitor):
                 res.sim.probe('new_prereq_on_pooled_task')
                 rec = any(fs & b['flows'] and key[2] in msgs
                           for fs, msgs in dbo.get((key[0], key[1]), []))
-                up0 = before.get(f'{key[0]}/{key[1]}')
-                up_flows = set(up0['flows']) if up0 is not None else set()
-                for fs, _m in dbo.get((key[0], key[1]), []):
-                    up_flows |= fs
-                if (not up_flows or up_flows & b['flows']) and any(
-                        k[0] == key[0] and k[1] == key[1] and m == key[2]
-                        for _t, k, m in self.h.world.msg_log):
-                    # the scheduler has received that message (it may be
-                    # neither in the database yet nor, if the task has since
-                    # completed, in the pool)
-                    if not rec:
-                        res.sim.probe('new_prereq_on_unflushed_output')
-                    rec = True
+                # (a message that has been delivered but not processed when
+                # the reload runs is still in the scheduler's queue: it is
+                # neither in the database, which the reload flushes first,
+                # nor in a pooled proxy, and does not count)
                 up = before.get(f'{key[0]}/{key[1]}')
                 if up is not None and up['flows'] & b['flows'] and (
                         key[2] in up['out_msgs']):
